@@ -380,8 +380,8 @@ func successReturns(f *ssa.Function) []*ssa.Return {
 				if c, ok := ret.Results[n-1].(*ssa.Const); ok && c.Value == nil {
 					out = append(out, ret)
 				}
-				// a returned error variable may be nil: treat phi/extract as possibly-success only if it comes from a call
-				if _, ok := ret.Results[n-1].(*ssa.Const); !ok {
+				// a returned error variable may be nil, unless the return sits in the "err != nil" arm of a test on it
+				if _, ok := ret.Results[n-1].(*ssa.Const); !ok && !inNonNilArm(ret.Block(), ret.Results[n-1]) && !freshError(ret.Results[n-1]) {
 					out = append(out, ret)
 				}
 				continue
@@ -393,3 +393,138 @@ func successReturns(f *ssa.Function) []*ssa.Return {
 }
 
 var _ = types.Typ
+
+// callsThrough lists the call instructions of f that call a function with the given name suffix directly,
+// or call a repository helper every normal return of which is dominated by such a call (2 levels).
+func callsThrough(f *ssa.Function, suffix string, depth int) []ssa.CallInstruction {
+	out := callsIn(f, suffix, false)
+	if depth == 0 {
+		return out
+	}
+	for _, b := range f.Blocks {
+		for _, ins := range b.Instrs {
+			ci, ok := ins.(ssa.CallInstruction)
+			if !ok {
+				continue
+			}
+			cal := ci.Common().StaticCallee()
+			if cal == nil || !inRepo(cal) || cal == f || strings.HasSuffix(SSAFuncName(cal), suffix) {
+				continue
+			}
+			inner := callsThrough(cal, suffix, depth-1)
+			if len(inner) == 0 {
+				continue
+			}
+			all := true
+			for _, ret := range successReturns(cal) {
+				dom := false
+				for _, ic := range inner {
+					if instrDominates(ic, ret) {
+						dom = true
+					}
+				}
+				if !dom {
+					all = false
+				}
+			}
+			if all {
+				out = append(out, ci)
+			}
+		}
+	}
+	return out
+}
+
+// orderedInside: in f or in one of its helpers, a call to `first` never runs after a call to `second`.
+func violatesOrder(f *ssa.Function, first, second string, depth int) (ssa.CallInstruction, bool) {
+	firsts := callsThrough(f, first, depth)
+	seconds := callsThrough(f, second, depth)
+	for _, o := range firsts {
+		for _, s := range seconds {
+			if o != s && instrReaches(s, o) && !instrDominates(o, s) {
+				return o, true
+			}
+		}
+	}
+	// both inside the same helper: check there
+	if depth > 0 {
+		for _, b := range f.Blocks {
+			for _, ins := range b.Instrs {
+				if ci, ok := ins.(ssa.CallInstruction); ok {
+					if cal := ci.Common().StaticCallee(); cal != nil && inRepo(cal) && cal != f {
+						if len(callsThrough(cal, first, depth-1)) > 0 && len(callsThrough(cal, second, depth-1)) > 0 {
+							if bad, v := violatesOrder(cal, first, second, depth-1); v {
+								return bad, true
+							}
+						}
+					}
+				}
+			}
+		}
+	}
+	return nil, false
+}
+
+// inNonNilArm: the block is in the arm of a dominating branch where v is known to be non-nil.
+func inNonNilArm(b *ssa.BasicBlock, v ssa.Value) bool {
+	for d := b.Idom(); d != nil; d = d.Idom() {
+		if len(d.Instrs) == 0 {
+			continue
+		}
+		ifi, ok := d.Instrs[len(d.Instrs)-1].(*ssa.If)
+		if !ok {
+			continue
+		}
+		bo, ok := ifi.Cond.(*ssa.BinOp)
+		if !ok || (bo.X != v && bo.Y != v) {
+			continue
+		}
+		arm := -1
+		switch bo.Op {
+		case token.NEQ:
+			arm = 0
+		case token.EQL:
+			arm = 1
+		}
+		if arm < 0 {
+			continue
+		}
+		s := d.Succs[arm]
+		if len(s.Preds) == 1 && (s == b || s.Dominates(b)) {
+			return true
+		}
+	}
+	return false
+}
+
+// freshError: the value is a newly created or package-level error (certainly non-nil).
+func freshError(v ssa.Value) bool {
+	switch x := v.(type) {
+	case *ssa.Call:
+		if cal := x.Call.StaticCallee(); cal != nil && cal.Pkg != nil {
+			p, n := cal.Pkg.Pkg.Path(), cal.Name()
+			return p == "fmt" && n == "Errorf" || p == "errors" && n == "New"
+		}
+	case *ssa.MakeInterface:
+		return true
+	case *ssa.UnOp:
+		_, isG := x.X.(*ssa.Global)
+		return isG
+	}
+	return false
+}
+
+// controlCondsDeep: controlConds plus the conditions of the branch blocks that jump directly to b
+// (the parts of a short-circuit a || b, a && b).
+func controlCondsDeep(b *ssa.BasicBlock) []ssa.Value {
+	out := controlConds(b)
+	for _, p := range b.Preds {
+		if len(p.Instrs) == 0 {
+			continue
+		}
+		if ifi, ok := p.Instrs[len(p.Instrs)-1].(*ssa.If); ok {
+			out = append(out, ifi.Cond)
+		}
+	}
+	return out
+}
